@@ -500,8 +500,9 @@ def main(root, argv):
     tier = argv[1] if len(argv) > 1 else os.environ.get("VERIF_TIER", "quick")
     seed = int(os.environ.get("VERIF_SEED", "0") or 0)
     t0 = time.time()
-    ev_path = os.path.join(root, "evidence", "%s.json" % prop) if re.match(r"^C\d+$", prop) else os.path.join("/var/tmp", "verif-dev-evidence.json")
-    os.makedirs(os.path.join(root, "evidence"), exist_ok=True)
+    evdir = os.environ.get("VERIF_EVIDENCE_DIR") or os.path.join(root, "evidence")
+    os.makedirs(evdir, exist_ok=True)
+    ev_path = os.path.join(evdir, "%s.json" % prop) if re.match(r"^C\d+$", prop) else os.path.join("/var/tmp", "verif-dev-evidence.json")
     os.makedirs(os.path.join(root, "replay"), exist_ok=True)
     scratch = Scratch()
     rcode = 2
@@ -653,6 +654,7 @@ def decide(root, prop, tier, seed, scratch, t0, ev_path):
     printed = []
     nviol = 0
     seen = set()
+    playback_budget = int(os.environ.get("VERIF_PLAYBACKS", "2"))
     for v in violations:
         if v["oid"] in seen:
             continue
@@ -671,7 +673,11 @@ def decide(root, prop, tier, seed, scratch, t0, ev_path):
             suffix = " no-failing-input-found"
         else:
             replay["failed_check"] = v["detail"]
-            test, raw = kani_playback(scratch, kres["repo"], v["harness"])
+            if playback_budget <= 0:
+                test, raw = None, "counterexample extraction skipped: playback budget of this run used up by earlier violations (set VERIF_PLAYBACKS to raise it); CBMC output: " + v.get("raw", "")[-1500:]
+            else:
+                playback_budget -= 1
+                test, raw = kani_playback(scratch, kres["repo"], v["harness"])
             replay["counterexample_playback_test"] = test
             if test:
                 nat = kani_native_replay(scratch, kres["repo"], v["harness"], test)
